@@ -61,6 +61,11 @@ pub struct Outcome {
     /// sub-problems (depth, base state) that a cut-set handed back although they had already been popped
     #[serde(default)]
     pub repushed: Vec<(usize, usize)>,
+    /// thresholds published to the live cache that exceed the largest sound threshold (C09; evaluated at the end of the run)
+    #[serde(default)]
+    pub threshold_errors: Vec<String>,
+    #[serde(default)]
+    pub thresholds_checked: usize,
     pub counters: Vec<(String, usize)>,
 }
 
@@ -189,6 +194,8 @@ where D: DecisionDiagram<State = TState> + Default, C: Cache<State = TState> + D
     let rc = new_run_ctx();
     REPUSH_OF_POPPED.store(0, Ordering::SeqCst);
     REPUSHED_KEYS.lock().unwrap().clear();
+    crate::wrap::THRESHOLD_LOG.lock().unwrap().clear();
+    crate::wrap::PUSH_LOG.lock().unwrap().clear();
     *CUR_INST.lock().unwrap() = Some(inst.clone());
     rc.cache_lossy_per_mille.store(sc.cache_lossy_per_mille, Ordering::Relaxed);
     rc.cache_seed.store(sc.seed as usize, Ordering::Relaxed);
@@ -243,6 +250,27 @@ where D: DecisionDiagram<State = TState> + Default, C: Cache<State = TState> + D
         fstats = f_simple.stats.clone(); ferrs = f_simple.errors.clone();
         out.repushed = f_simple.repushed.iter().filter(|(s, _)| s.set.count_ones() == 1).map(|(s, d)| (*d, s.set.trailing_zeros() as usize)).collect();
     }
+    // C09 at the source, with the LIVE cache: every threshold published during the run against the largest threshold that can be
+    // sound at all, given the final optimum as incumbent and every sub-problem ever pushed on the fringe as covered. Weaker than the
+    // oracle of the dd-history arms (the incumbent at publication time is not visible here), but it sees thresholds that were derived
+    // from other thresholds. Not with a dominance rule (a dominated node is covered by ANOTHER state) nor with long arcs.
+    if sc.cache && sc.dominance.is_none() && all_relevant && out.returned {
+        if let Some(opt) = inst.opt() {
+            let covered: Vec<(usize, usize, isize)> = crate::wrap::PUSH_LOG.lock().unwrap().iter().filter(|(k, _, _)| ((*k >> 8) as u32).count_ones() == 1).map(|(k, d, v)| (*d, ((*k >> 8) as u32).trailing_zeros() as usize, *v)).collect();
+            let tt = crate::history::sound_thresholds(&inst, opt as crate::table::Wide, &covered);
+            for (set, depth, theta, explored) in crate::wrap::THRESHOLD_LOG.lock().unwrap().iter() {
+                if set.count_ones() != 1 || *depth > inst.t.n { continue; }
+                let a = set.trailing_zeros() as usize;
+                out.thresholds_checked += 1;
+                let sound = tt[*depth][a];
+                if sound >= crate::history::T_INF { continue; }
+                let upto = *theta as crate::table::Wide - if *explored { 0 } else { 1 };
+                if upto > sound && out.threshold_errors.len() < 3 {
+                    out.threshold_errors.push(format!("threshold ({theta}, explored = {explored}) published for base state {a} at depth {depth} discards arrivals up to value {upto}, but even with the final optimum {opt} as incumbent and every sub-problem ever pushed on the fringe as covered the largest sound threshold is {sound}"));
+                }
+            }
+        }
+    }
     monitor::on_compile_end();
     out.fringe = fstats; out.fringe_errors = ferrs;
     out.polls = cutoff.polls(); out.fired = cutoff.fired();
@@ -255,6 +283,7 @@ where D: DecisionDiagram<State = TState> + Default, C: Cache<State = TState> + D
         c("mon_layers_checked", &monitor::LAYERS_CHECKED), c("mon_layers_at_width", &monitor::LAYERS_AT_WIDTH), c("mon_relax_calls", &monitor::RELAX_CALLS),
         c("mon_merge_calls", &monitor::MERGE_CALLS), c("mon_tc_calls", &monitor::TC_CALLS), c("mon_domain_calls", &monitor::DOMAIN_CALLS), c("mon_nextvar_calls", &monitor::NEXTVAR_CALLS), c("mon_recycled_merges", &monitor::RECYCLED_MERGES),
     ];
+    out.counters.push(("live_thresholds_checked".to_string(), out.thresholds_checked));
     out
 }
 
@@ -314,6 +343,7 @@ pub fn judge(sc: &Scenario, out: &Outcome) -> Vec<Violation> {
     }
     // --- in situ monitors ----------------------------------------------------
     for e in out.fringe_errors.iter() { add(vec![s("C11")], "fringe-mismatch", e.clone()); }
+    for e in out.threshold_errors.iter() { add(vec![s("C09")], "cache-threshold-unsound", e.clone()); }
     for (p, m) in out.monitor.iter() { add(vec![p.clone()], if p == "C12" { "callback-protocol" } else { "width-exceeded" }, m.clone()); }
     if !out.returned { return v; }
 
